@@ -1,6 +1,6 @@
 (* Property C02 — unrelated households do not influence each other; relabelling ids changes only labels. *)
 From Coq Require Import ZArith Bool String List.
-From GettsimModel Require Import Num Val Column Aggregation Engine Groupings Perm.
+From GettsimModel Require Import Num Val Ast Eval PolicyEnv Column Aggregation Engine Dag Groupings Perm Table TableSep.
 Import ListNotations.
 Open Scope Z_scope.
 
@@ -42,3 +42,18 @@ Theorem C02_wthh_no_collision : forall hhs v1 v2 i j h1 h2 a1 b1 a2 b2 x,
   h1 = h2 /\ (a1 || b1) = (a2 || b2).
 Proof. exact wthh_within_hh. Qed.
 Print Assumptions C02_wthh_no_collision.
+
+(* END TO END ON THE MODEL: for the concrete engine Table.sem, simulating two populations TOGETHER
+   gives, column by column, the concatenation of what simulating them SEPARATELY gives — whenever the
+   keys of the group reductions do not occur in both, the p_ids are unique overall and foreign keys do
+   not point into the other population ([side], stated on the supplied key columns), the rules have a
+   declared result dtype and no node is named like a key column (decidable, checked on the graphs).
+   The id builders are excluded as in C01 (ids supplied). *)
+Theorem C02_engine_separable : forall ft P rounding nA nB S eA eB eAB tA tB,
+  forallb (sep_ready_b ft) S = true -> keys_fresh_b S = true -> (forall n, In n S -> side eA eB n) ->
+  tab3 nA nB eA eB eAB ->
+  run column (to_sys column (semA ft P rounding nA) S) eA = Ok tA ->
+  run column (to_sys column (semB ft P rounding nB) S) eB = Ok tB ->
+  exists tAB, run column (to_sys column (semAB ft P rounding nA nB) S) eAB = Ok tAB /\ tab3 nA nB tA tB tAB.
+Proof. exact run_separable_b. Qed.
+Print Assumptions C02_engine_separable.
